@@ -33,6 +33,19 @@ field first / after a sentinel with an adversarial last byte / twice in a row / 
 of "first regex match at or after the cursor" (searched on the bytes from the cursor on / searched in place in the
 parsed text raw[k:]); judged where they agree - in particular for the first field, where no byte before the start
 offset may matter (docs/reference/02) - counted where they do not.
+
+Fourth part (section "regex delimiters compiled with flags"): the s1 / d / s2 declaration of the first part with regex
+delimiters whose meaning depends on their flags - re.IGNORECASE on pure-literal patterns (b'end', CR LF, b'X') and on
+a character class, re.DOTALL, re.MULTILINE, re.VERBOSE with a commented pattern, re.ASCII, inline `(?i)` / `(?i:..)`,
+combinations.  Oracle: `model()` with the oracle's own object compiled from the same (pattern, flags); inputs whose
+first occurrence is spelled in another case than the pattern text, with the same-case occurrence further on or absent.
+The counter-factual "pattern text without its flags" tells on which inputs the flags decide (flg_decisive_*).
+
+Fifth part (section "several byte-string fields next to each other"): layouts where byte-string fields are neighbours
+(two / three Data(n) of one size, different sizes, next to Ints of several widths / byte orders / signedness, a fixed
+field between two delimited ones, two delimited ones in a row, Data(n) then Data(field)).  Oracle: `adj_model()`,
+field by field with `take()`; every input the model parses is cut at every point before its end; pack() must be the
+concatenation of the fields.
 """
 import hashlib
 import re
@@ -75,6 +88,29 @@ REQUIRED = (
     "ctx_after_earlier_field_compared", "ctx_adversarial_sentinel_byte_compared", "ctx_in_sub_packet_compared",
     "ctx_delimiter_at_cursor", "ctx_in_window_accepts", "ctx_lookahead_blocked_by_window_edge",
     "ctx_pack_compared", "ctx_fresh_pack_compared", "ctx_repack_roundtrip_values_preserved",
+    # regex delimiters compiled with flags
+    "flg_classes_defined", "flg_unpack_ok_compared", "flg_end_offset_compared", "flg_errors_agreed",
+    "flg_err_missing_delimiter_raised", "flg_err_delimiter_outside_window_raised",
+    "flg_flags_decisive", "flg_decisive_pure_literal_pattern", "flg_decisive_ignorecase_literal",
+    "flg_decisive_ignorecase_nonliteral", "flg_decisive_dotall", "flg_decisive_multiline", "flg_decisive_verbose",
+    "flg_decisive_inline", "flg_decisive_ignorecase_dotall",
+    "flg_decisive_with_window", "flg_decisive_without_window", "flg_decisive_include_on", "flg_decisive_include_off",
+    "flg_decisive_opt_g", "flg_decisive_opt_d", "flg_decisive_opt_nv",
+    "flg_first_match_differs_in_case_from_pattern_text", "flg_only_case_different_occurrence_found",
+    "flg_same_case_occurrence_beyond_case_different_one", "flg_occurrence_spelled_as_the_pattern",
+    "flg_pack_compared", "flg_fresh_pack_compared", "flg_repack_roundtrip_value_preserved",
+    # several byte-string fields next to each other
+    "adj_classes_defined", "adj_classes_with_same_size_run", "adj_unpack_ok_compared", "adj_end_offset_compared",
+    "adj_byte_string_fields_compared", "adj_ok_same_size_pair", "adj_ok_same_size_triple", "adj_ok_different_sizes",
+    "adj_ok_next_to_ints", "adj_ok_fixed_between_delimited", "adj_ok_two_delimited_same_marker",
+    "adj_ok_two_delimited_different_markers", "adj_ok_fixed_then_field_sized",
+    "adj_ok_same_size_run_of_2", "adj_ok_same_size_run_of_3_or_more",
+    "adj_ok_opt_g", "adj_ok_opt_d", "adj_ok_opt_nv",
+    "adj_inputs_cut_at_every_point", "adj_truncations_rejected", "adj_truncations_rejected_g",
+    "adj_truncations_rejected_d", "adj_truncations_rejected_nv", "adj_err_short_read_raised",
+    "adj_err_missing_delimiter_raised", "adj_err_delimiter_outside_window_raised", "adj_in_window_accepts",
+    "adj_value_holds_another_fields_marker", "adj_pack_compared", "adj_pack_compared_opt_g", "adj_pack_compared_opt_d",
+    "adj_pack_compared_opt_nv", "adj_fresh_pack_compared", "adj_repack_roundtrip_values_preserved",
 )
 RULE = {
     "quick": "every class of the product {4 constants, field, 3 field expressions, 2 callables (+1 unjudged non-integer), "
@@ -101,9 +137,24 @@ RULE = {
              "from {backslash, word character, newline, the delimiter byte, a look-behind byte}, a delimiter byte at the "
              "cursor in 60% of the inputs, plus 2 freshly built packets (delimiter kept) packed and parsed again; about "
              "23k inputs, judged where the two readings of the statement agree (see ASSUMPTIONS).  Non-trivial = at least "
-             "one byte at or after the start offset.",
+             "one byte at or after the start offset.  "
+             "Flags part: 13 regex delimiters compiled with flags {re.I on the literals b'end', CR LF, b'X' and on [a-c]+;, "
+             "re.S on <.>, re.M on ;; and ;$, re.X on a commented 'e n d', re.I|re.X, re.A on \\W, inline (?i)end and "
+             "(?i:e)nd, re.I|re.S on a.b} x include_delimiter x windows {unset,0,3,5} x {with s2, Data last} x 3 option sets "
+             "(624 classes), 18 inputs each: fill (neutral / partial occurrences / marker alphabet, length around the "
+             "window edge) + one occurrence in a random spelling (upper, lower, mixed case; newline for '.') + sentinel "
+             "+ in half of the inputs a later occurrence spelled exactly as the pattern text, plus 2 freshly built packets; "
+             "about 11k inputs.  flg_decisive_* count the inputs on which the pattern text without its flags would give "
+             "another value / cursor / error.  "
+             "Adjacent part: 45 layouts of neighbouring byte-string fields {Data(n) x2 and x3 for n in 1,2,6, bare and "
+             "framed by Ints; different sizes incl. 0 and 12; next to Int 1/2/3/4/8, signed, little-endian; fixed between "
+             "two delimited (bytes / regex markers, kept and not); two and three delimited in a row, same and different "
+             "markers; Data(n) then Data(field)} x windows {unset,3} where delimited x 3 option sets (186 classes), 8 "
+             "inputs each, every input the model parses also cut at every point before its end (about 11k cuts), plus 3 "
+             "freshly built packets packed and parsed again; about 13k inputs.  Non-trivial = at least one byte.",
     "thorough": "as quick, 16 shards with independent PRNG streams (and shifted variant rotation), about 1M + 0.7M + 0.7M "
-                "inputs (context-sensitive part: 39 inputs per class, start offsets up to 9).",
+                "inputs (context-sensitive part: 39 inputs per class, start offsets up to 9), + 0.4M (flags part, 36 "
+                "inputs per class) + 0.5M (adjacent part, 20 inputs per class, each cut at every point).",
 }
 ASSUMPTIONS = [
     "Python `re.search` on the window slice raw[o:o+W] is the specification of 'leftmost regex match within the window' "
@@ -136,6 +187,15 @@ ASSUMPTIONS = [
     "the library 'will not attempt to scan further')",
     "context-sensitive part: pack() is judged only with include_delimiter=True (the value carries its delimiter); a regex "
     "delimiter that is not kept has no defined re-emission",
+    "flags part: 'a regex match' means a match of the compiled pattern object the declaration hands over, with the flags "
+    "it was compiled with (module-level and inline): the oracle is Python's `re` search of an object compiled from the "
+    "same (pattern, flags) on the bytes from the cursor on, inside the window; pack() is judged only where the delimiter "
+    "is kept in the value",
+    "adjacent part: an input too short inside an Int field is C04's business (counted adj_unjudged_int_short); a cut "
+    "inside or before a byte-string field is a short read / missing delimiter exactly when the field-by-field model "
+    "says so (a regex delimiter such as \\x00+ may legitimately match a shorter run in the cut input)",
+    "adjacent part: the cursor after each field is observed through the value of the next field, the end offset of "
+    "unpack_impl and the acceptance / rejection of the input cut at that very point",
 ]
 
 OPTSETS = {
@@ -438,10 +498,18 @@ def _witness(c, raw, exp, got, origin):
             "expected": exp, "got": got}
 
 
-def check_unpack(run, c, raw, origin, PacketError):
-    """Parse raw with the real class, compare with the model. Returns (model result, parsed packet or None)."""
+def check_unpack(run, c, raw, origin, PacketError, note="", extra=None):
+    """Parse raw with the real class, compare with the model. Returns (model result, parsed packet or None).
+    note: appended to the text of a violation; extra: more entries for its witness."""
     mode = c.mode
     exp = model(mode, c.incl, c.W, c.tail, raw)
+
+    def _witness(c_, raw_, exp_, got_, origin_):
+        w = {"op": "unpack", "declaration": HEADER + c_.src, "spec": c_.spec, "raw": raw_, "origin": origin_,
+             "expected": exp_, "got": got_}
+        if extra:
+            w.update(extra)
+        return w
     run.case(key=_key(c, raw), nontrivial=len(raw) >= 1)
     run.count("inputs_" + mode.kind)
     pkt, exc = None, None
@@ -462,11 +530,11 @@ def check_unpack(run, c, raw, origin, PacketError):
             got = {"d": getattr(pkt, "d", None), "s1": getattr(pkt, "s1", None)}
             if not c.tail:
                 got["s2"] = getattr(pkt, "s2", None)
-            run.violation("%s accepted: unpack() returned a packet where the model demands an error" % exp[1],
+            run.violation("%s accepted: unpack() returned a packet where the model demands an error%s" % (exp[1], note),
                           _witness(c, raw, {"error": exp[1]}, got, origin))
             return exp, None
         if not isinstance(exc, PacketError):
-            run.violation("%s raised %s instead of PacketError" % (exp[1], type(exc).__name__),
+            run.violation("%s raised %s instead of PacketError%s" % (exp[1], type(exc).__name__, note),
                           _witness(c, raw, {"error": exp[1]}, {"exception": repr(exc)}, origin))
             return exp, None
         reason = {"delimiter_straddles_window": "delimiter_outside_window"}.get(exp[1], exp[1])
@@ -481,7 +549,7 @@ def check_unpack(run, c, raw, origin, PacketError):
     if not c.tail:
         want["s2"] = s2
     if exc is not None:
-        run.violation("unpack() raised %s on an input the model parses" % type(exc).__name__,
+        run.violation("unpack() raised %s on an input the model parses%s" % (type(exc).__name__, note),
                       _witness(c, raw, want, {"exception": str(exc)[:400]}, origin))
         return exp, None
     got = {"s1": getattr(pkt, "s1", None), "d": getattr(pkt, "d", None)}
@@ -510,7 +578,7 @@ def check_unpack(run, c, raw, origin, PacketError):
     elif got2 != value:
         bad = "second parse (unpack_impl) produced a different value"
     if bad:
-        run.violation(bad, _witness(c, raw, want, got, origin))
+        run.violation(bad + note, _witness(c, raw, want, got, origin))
         return exp, None
     run.count("unpack_ok_compared")
     run.count("end_offset_compared")
@@ -1930,6 +1998,675 @@ def run_ctx(run, PacketError, n_shared, n_private, n_fresh):
         common.drop_scratch(scratch)
 
 
+# =================================================================================================
+# ---- regex delimiters compiled with flags -------------------------------------------------------
+# A regex delimiter is the compiled pattern object the declaration hands over, flags included: `re.compile(b'end',
+# re.IGNORECASE)` stops at b'END' as well.  The oracle is the first part's `model()` with the oracle's own object
+# compiled from the same (pattern, flags); the counter-factual "plain reading" - the same pattern text without its
+# flags (for a pure literal: a bytes search of the text) - tells for which inputs the flags decide the outcome.
+FLAG_WINDOWS = [None, 0, 3, 5]
+_RX_SPECIAL = b".^$*+?{}[]\\|()"
+
+
+class FlagMode(Mode):
+    def __init__(self, mid, family, pattern, flags, flags_src, alphabet, delims, neutral, plain=None, canon=None):
+        Mode.__init__(self, mid, "rx", "until_marker=re.compile(%r%s)" % (pattern, flags_src), pattern=pattern,
+                      alphabet=alphabet, delims=delims, neutral=neutral)
+        self.rx = re.compile(pattern, flags)          # the oracle's own compiled object, flags included
+        self.family = family
+        self.flags = flags
+        self.plain_rx = re.compile(pattern if plain is None else plain)     # the same text read without its flags
+        self.canon = canon                            # the literal text the pattern spells (None: not a literal)
+        self.pure_literal = not any(b in _RX_SPECIAL for b in pattern) and not (flags & re.X)
+        twin = Mode.__new__(Mode)
+        twin.__dict__.update(self.__dict__)
+        twin.rx = self.plain_rx
+        self.plain_twin = twin
+
+
+_END_ALPHA = b"endENDx"
+FLAG_MODES = [
+    # the first delimiter of every list is the occurrence written exactly as in the pattern text
+    FlagMode("fl_i_end", "ignorecase_literal", b"end", re.I, ", re.IGNORECASE", _END_ALPHA,
+             [b"end", b"END", b"End", b"eNd"], b"x", canon=b"end"),
+    FlagMode("fl_i_crlf", "ignorecase_literal", b"\r\n", re.I, ", re.IGNORECASE", b"\r\nx", [b"\r\n"], b"x",
+             canon=b"\r\n"),
+    FlagMode("fl_i_X", "ignorecase_literal", b"X", re.I, ", re.I", b"Xxy", [b"X", b"x"], b"y", canon=b"X"),
+    FlagMode("fl_i_class", "ignorecase_nonliteral", rb"[a-c]+;", re.I, ", re.IGNORECASE", b"abBC;z",
+             [b"a;", b"B;", b"Cb;", b"AC;"], b"z"),
+    FlagMode("fl_s_dot", "dotall", rb"<.>", re.S, ", re.DOTALL", b"<>\na", [b"<a>", b"<\n>", b"<<>"], b"a"),
+    FlagMode("fl_m_semis", "multiline_literal", b";;", re.M, ", re.MULTILINE", b";x", [b";;"], b"x", canon=b";;"),
+    FlagMode("fl_m_semi_eol", "multiline", rb";$", re.M, ", re.MULTILINE", b";\nx", [b";", b";\n"], b"x"),
+    FlagMode("fl_x_end", "verbose", b"e n d  # the end mark", re.X, ", re.VERBOSE", b"end #x", [b"end"], b"x"),
+    FlagMode("fl_ix_end", "verbose", b"e n d  # the end mark", re.I | re.X, ", re.IGNORECASE | re.VERBOSE",
+             b"endEND x", [b"end", b"END", b"enD"], b"x"),
+    FlagMode("fl_a_nonword", "ascii", rb"\W", re.A, ", re.ASCII", b"aZ_9;\xe9", [b";", b"\xe9"], b"a"),
+    FlagMode("fl_inline_i_end", "inline", rb"(?i)end", 0, "", _END_ALPHA, [b"end", b"END", b"End", b"enD"], b"x",
+             plain=b"end", canon=b"end"),
+    FlagMode("fl_inline_scoped_e", "inline", rb"(?i:e)nd", 0, "", _END_ALPHA, [b"end", b"End"], b"x",
+             plain=b"end", canon=b"end"),
+    FlagMode("fl_is_a_dot_b", "ignorecase_dotall", rb"a.b", re.I | re.S, ", re.I | re.S", b"abAB\nx",
+             [b"axb", b"A\nB", b"a\nb", b"AxB"], b"x"),
+]
+FLAG_DECISIVE_FAMILIES = ("ignorecase_literal", "ignorecase_nonliteral", "dotall", "multiline", "verbose", "inline",
+                          "ignorecase_dotall")
+MODE_BY_ID.update({m.id: m for m in FLAG_MODES})
+
+
+def flag_specs():
+    groups, n = [], 0
+    for mode in FLAG_MODES:
+        for W in FLAG_WINDOWS:
+            for tail in (False, True):
+                members = []
+                for incl in (False, True):
+                    for opt in OPTSETS:
+                        members.append(Cls("G%d" % n, mode, incl, W, opt, tail))
+                        n += 1
+                groups.append(((mode.id, W, tail), members))
+    return groups
+
+
+def gen_flagged(rng, mode, W, tail):
+    """fill + an occurrence in some case + sentinel + (half of the time) a later occurrence spelled as in the pattern"""
+    alpha = mode.alphabet
+    d = rng.choice(mode.delims) if rng.random() < 0.9 else None
+    dl = len(d) if d is not None else 0
+    if W:
+        L = rng.choice([0, 1, W - dl - 1, W - dl, W - dl, W - dl + 1, W - 1, W, W + 1, rng.randint(0, W + 3)])
+    else:
+        L = rng.choice([0, 1, 2, 3, 3, rng.randint(0, 9)])
+    L = max(L, 0)
+    k = rng.random()
+    if k < 0.5:
+        fill = mode.neutral * L
+    elif k < 0.7 and d and len(d) > 1:
+        fill = (d[:-1] * (L + 1))[:L]                  # 'ENEN' right before 'END'
+    else:
+        fill = _rb(rng, L, alpha)
+    r = rng.random()
+    if r < 0.4 and d:
+        s1 = d[:1]
+    elif r < 0.6:
+        s1 = bytes([rng.choice(alpha)])
+    else:
+        s1 = bytes([rng.randrange(256)])
+    body = fill + (d if d is not None else b"")
+    if not tail or rng.random() < 0.6:
+        body += _rb(rng, 2, alpha) if rng.random() < 0.3 else _rb(rng, 2)
+        t = rng.random()
+        if t < 0.5:
+            body += mode.neutral + mode.delims[0] + _rb(rng, 2)       # the same-case occurrence, further on
+        elif t < 0.65:
+            body += _rb(rng, rng.randint(1, 4), alpha)
+    raw = s1 + body
+    if rng.random() < 0.05 and len(raw) > 1:
+        raw = raw[:rng.randint(1, len(raw))]
+    return raw
+
+
+def _flag_note(c, raw, exp):
+    """(text for a violation, witness entries, decisive?)"""
+    mode = c.mode
+    plain = model(mode.plain_twin, c.incl, c.W, c.tail, raw)
+    decisive = (plain[0] != exp[0]) if "err" in (plain[0], exp[0]) else plain[:5] != exp[:5]
+    extra = {"delimiter": mode.arg}
+    note = ""
+    if decisive:
+        note = " [regex delimiter compiled with flags: the model is Python's re search of the same compiled pattern; " \
+               "the pattern text read without its flags gives something else]"
+        extra["same_pattern_text_without_its_flags_would_give"] = \
+            {"error": plain[1]} if plain[0] == "err" else {"short_input": plain[1]} if plain[0] == "unjudged" else \
+            {"d": plain[2], "s2": plain[3], "end": plain[4]}
+    return note, extra, decisive
+
+
+def flg_input(run, c, raw, origin, PacketError):
+    mode = c.mode
+    exp0 = model(mode, c.incl, c.W, c.tail, raw)
+    note, extra, decisive = _flag_note(c, raw, exp0) if exp0[0] != "unjudged" else ("", None, False)
+    v0 = run.counters["violations"]
+    exp, pkt = check_unpack(run, c, raw, origin, PacketError, note=note, extra=extra)
+    run.count("flg_inputs")
+    if exp[0] == "unjudged" or run.counters["violations"] != v0:
+        return exp, None
+
+    def tally_decisive():
+        run.count("flg_flags_decisive")
+        run.count("flg_decisive_" + mode.family)
+        run.count("flg_decisive_" + ("with_window" if c.W else "without_window"))
+        run.count("flg_decisive_include_" + ("on" if c.incl else "off"))
+        run.count("flg_decisive_opt_" + c.opt)
+        if mode.pure_literal:
+            run.count("flg_decisive_pure_literal_pattern")
+        run.cover("flg_decisive_in", mode.id)
+    if exp[0] == "err":
+        run.count("flg_errors_agreed")
+        run.count("flg_err_%s_raised" % {"delimiter_straddles_window": "delimiter_outside_window"}.get(exp[1], exp[1]))
+        if decisive:
+            tally_decisive()
+            run.count("flg_decisive_error_demanded")
+        return exp, None
+    if pkt is None:
+        return exp, None
+    _, s1, value, s2, end, _flags = exp
+    run.count("flg_unpack_ok_compared")
+    run.count("flg_end_offset_compared")
+    run.cover("flg_modes", mode.id)
+    run.cover("flg_windows", "unset" if c.W is None else c.W)
+    if decisive:
+        tally_decisive()
+    # what kind of occurrence decided? (on the bytes from the cursor on, as the model)
+    rest = raw[1:]
+    win = rest[:c.W] if c.W else rest
+    m = mode.rx.search(win)
+    pm = mode.plain_rx.search(rest)
+    if mode.canon is not None and m.group() != mode.canon:
+        run.count("flg_first_match_differs_in_case_from_pattern_text")
+    if pm is None:
+        run.count("flg_only_flag_dependent_occurrence_found")
+        if mode.canon is not None:
+            run.count("flg_only_case_different_occurrence_found")
+    elif pm.start() > m.start():
+        run.count("flg_earlier_flag_dependent_occurrence_wins")
+        if mode.canon is not None and pm.group() == mode.canon:
+            run.count("flg_same_case_occurrence_beyond_case_different_one")
+    elif pm.span() == m.span():
+        run.count("flg_occurrence_spelled_as_the_pattern")
+    got = check_pack_bytes(run, c, pkt, s1, value, s2, "pack() of the packet parsed from raw", PacketError,
+                           extra={"raw": raw})
+    if got is not None:
+        run.count("flg_pack_compared")
+    return exp, pkt
+
+
+def flg_fresh(run, rng, c, PacketError):
+    a = run.counters["repack_roundtrip_value_preserved"]
+    b = run.counters["pack_compared"]
+    fresh_pack(run, rng, c, PacketError)
+    if run.counters["pack_compared"] > b:
+        run.count("flg_fresh_pack_compared")
+    if run.counters["repack_roundtrip_value_preserved"] > a:
+        run.count("flg_repack_roundtrip_value_preserved")
+
+
+def run_flags(run, PacketError, n_shared, n_private, n_fresh):
+    from .. import common
+    shard, _ = run.shard
+    rng = rng_for(run.seed, "c06-flags", shard)
+    scratch = common.scratch_dir("bvf_c06f_")
+    groups = flag_specs()
+    modules = []
+    try:
+        modules = define(groups, scratch)
+        run.count("flg_classes_defined", sum(len(m) for _, m in groups))
+        sampled = 0
+        for (mid, W, tail), members in groups:
+            mode = MODE_BY_ID[mid]
+            shared = [gen_flagged(rng, mode, W, tail) for _ in range(n_shared)]
+            for c in members:
+                for raw in shared:
+                    flg_input(run, c, raw, "adversarial", PacketError)
+                for _ in range(n_private):
+                    raw = gen_flagged(rng, mode, W, tail) if rng.random() < 0.6 else gen_random(rng, mode)
+                    flg_input(run, c, raw, "random", PacketError)
+                for _ in range(n_fresh):
+                    flg_fresh(run, rng, c, PacketError)
+                if run.counters["violations"] > 40:
+                    return
+            if sampled < 2 and mode.canon == b"end" and W and not tail:
+                for raw in shared:
+                    exp = model(mode, False, W, tail, raw)
+                    if exp[0] == "ok" and _flag_note(members[0], raw, exp)[2]:
+                        run.sample({"declaration": members[0].src, "raw": raw, "model": list(exp[:5])}, cap=10)
+                        sampled += 1
+                        break
+    finally:
+        forget(modules)
+        common.drop_scratch(scratch)
+
+
+# =================================================================================================
+# ---- several byte-string fields next to each other ----------------------------------------------
+# Layouts in which byte-string fields are neighbours: runs of Data(n) of the same size, of different sizes,
+# next to Ints of several widths / byte orders / signedness, a fixed field between two delimited ones, two
+# delimited fields in a row, Data(n) followed by Data(field).  Every field is read on its own: the model walks
+# the declaration in order and calls `take()` for each Data field (exact-length slice / first delimiter within
+# the window, from the cursor the previous field left).  Every input the model parses is also cut at every
+# point before its end: the model says which cut is a short read / missing delimiter of a byte-string field
+# (judged) and which one falls into an Int (C04's business, counted).
+class AField:
+    __slots__ = ("name", "kind", "src", "n", "signed", "little", "mode", "incl", "ref")
+
+    def __init__(self, name, kind, src, n=None, signed=False, little=False, mode=None, incl=False, ref=None):
+        self.name, self.kind, self.src, self.n = name, kind, src, n
+        self.signed, self.little, self.mode, self.incl, self.ref = signed, little, mode, incl, ref
+
+
+def _ai(name, n, signed=False, little=False):
+    src = "Int(%d%s%s)" % (n, ", signed=True" if signed else "", ", endianness='little'" if little else "")
+    return AField(name, "int", src, n=n, signed=signed, little=little)
+
+
+_ACONST = {}
+
+
+def _ac(name, n):
+    if n not in _ACONST:
+        _ACONST[n] = Mode("const%d_adj" % n, "sized", "%d" % n, size=(lambda s1, L, o, n=n: n))
+    return AField(name, "data", "Data(%d)" % n, n=n, mode=_ACONST[n])
+
+
+def _ad(name, mid, incl=False):
+    mode = MODE_BY_ID[mid]
+    return AField(name, "data", "Data(%s, include_delimiter=%r)" % (mode.arg, incl), mode=mode, incl=incl)
+
+
+def _af(name, ref):
+    return AField(name, "data", "Data(%s)" % ref, mode=MODE_BY_ID["field"], ref=ref)
+
+
+class ALayout:
+    def __init__(self, lid, family, fields):
+        self.id, self.family, self.fields = lid, family, fields
+        self.data = [f for f in fields if f.kind == "data"]
+        self.delimited = any(f.mode.kind in ("lit", "rx") for f in self.data)
+        self.packable = not any(f.mode.kind == "rx" and not f.incl for f in self.data)
+        self.refs = {f.ref for f in self.data if f.ref}
+        self.windows = [None, 3] if self.delimited else [None]
+        self.alphabet = b"".join(f.mode.alphabet for f in self.data if f.mode.alphabet)
+        # runs of two or more neighbouring constant-size Data fields of one size
+        self.same_size_run = 0
+        run_ = 0
+        prev = None
+        for f in fields:
+            if f.kind == "data" and f.mode.kind == "sized" and f.ref is None and f.n == prev:
+                run_ += 1
+            else:
+                run_ = 1
+            prev = f.n if (f.kind == "data" and f.mode.kind == "sized" and f.ref is None) else None
+            self.same_size_run = max(self.same_size_run, run_ if prev is not None else 0)
+
+
+def _layouts():
+    ls = []
+
+    def add(lid, family, *fields):
+        ls.append(ALayout(lid, family, list(fields)))
+    for n in (1, 2, 6):
+        add("pair%d" % n, "same_size_pair", _ac("a", n), _ac("b", n))
+        add("pair%d_framed" % n, "same_size_pair", _ai("h", 1), _ac("a", n), _ac("b", n), _ai("t", 2))
+        add("triple%d" % n, "same_size_triple", _ac("a", n), _ac("b", n), _ac("c", n))
+        add("triple%d_framed" % n, "same_size_triple", _ai("h", 1), _ac("a", n), _ac("b", n), _ac("c", n),
+            _ac("rest", 2 if n != 2 else 3))
+    add("diff_1_2", "different_sizes", _ac("a", 1), _ac("b", 2))
+    add("diff_6_2_1", "different_sizes", _ac("a", 6), _ac("b", 2), _ac("c", 1), _ai("t", 2))
+    add("diff_runs_2_2_1_1_2", "different_sizes", _ac("a", 2), _ac("b", 2), _ac("c", 1), _ac("d", 1), _ac("e", 2))
+    add("diff_0_2_2", "different_sizes", _ac("a", 0), _ac("b", 2), _ac("c", 2))
+    add("diff_12_1_1", "different_sizes", _ac("a", 12), _ac("b", 1), _ac("c", 1))
+    add("diff_1_1_2", "different_sizes", _ai("h", 1), _ac("a", 1), _ac("b", 1), _ac("c", 2))
+    add("ints_2_4", "next_to_ints", _ai("i", 2), _ac("a", 2), _ac("b", 2), _ai("j", 4))
+    add("ints_little_between", "next_to_ints", _ac("a", 2), _ai("i", 2, little=True), _ac("b", 2), _ac("c", 2))
+    add("ints_3_between", "next_to_ints", _ac("a", 6), _ai("i", 3), _ac("b", 6), _ac("c", 6))
+    add("ints_signed_8_1", "next_to_ints", _ai("i", 8, signed=True), _ac("a", 1), _ac("b", 1), _ai("j", 1, signed=True),
+        _ac("c", 2))
+    add("ints_little_run", "next_to_ints", _ai("i", 4, little=True), _ai("j", 2, little=True), _ac("a", 2), _ac("b", 2),
+        _ai("k", 2))
+    add("ints_bytes_around", "next_to_ints", _ai("i", 1), _ai("j", 1), _ac("a", 2), _ac("b", 2), _ai("k", 1),
+        _ai("l", 1))
+    for incl in (False, True):
+        t = "_incl" if incl else ""
+        add("between_lit" + t, "fixed_between_delimited", _ad("a", "lit_colons", incl), _ac("m", 2),
+            _ad("b", "lit_nul", incl))
+        add("between_rx" + t, "fixed_between_delimited", _ad("a", "rx_eol", incl), _ac("m", 2), _ac("m2", 2),
+            _ad("b", "rx_set", incl))
+        add("between_framed" + t, "fixed_between_delimited", _ai("h", 1), _ad("a", "lit_ab", incl), _ac("m", 1),
+            _ac("m2", 1), _ad("b", "lit_ab", incl), _ai("t", 2))
+        add("two_same_lit" + t, "two_delimited_same_marker", _ad("a", "lit_colons", incl), _ad("b", "lit_colons", incl),
+            _ai("t", 2))
+        add("two_same_rx" + t, "two_delimited_same_marker", _ai("h", 1), _ad("a", "rx_set", incl),
+            _ad("b", "rx_set", incl), _ai("t", 2))
+        add("two_diff_lit" + t, "two_delimited_different_markers", _ad("a", "lit_colons", incl), _ad("b", "lit_nul", incl),
+            _ai("t", 2))
+        add("two_diff_lit_rx" + t, "two_delimited_different_markers", _ai("h", 1), _ad("a", "lit_crlf", incl),
+            _ad("b", "rx_nuls", incl), _ad("c", "lit_aab", incl), _ai("t", 2))
+        add("two_diff_flag_lit" + t, "two_delimited_different_markers", _ad("a", "fl_i_end", incl),
+            _ad("b", "lit_ab", incl), _ai("t", 2))
+    add("two_same_lit_mixed", "two_delimited_same_marker", _ad("a", "lit_nul", True), _ad("b", "lit_nul", False),
+        _ad("c", "lit_nul", True), _ai("t", 2))
+    add("field_after_fixed", "fixed_then_field_sized", _ai("n", 1), _ac("a", 2), _af("b", "n"))
+    add("field_after_fixed_int_between", "fixed_then_field_sized", _ac("a", 2), _ai("n", 1), _af("b", "n"), _ac("c", 2))
+    add("field_between_fixed_runs", "fixed_then_field_sized", _ai("n", 1), _ac("a", 2), _ac("b", 2), _af("c", "n"),
+        _ac("d", 2), _ac("e", 2))
+    add("field_little_count", "fixed_then_field_sized", _ai("n", 2, little=True), _ac("a", 6), _ac("b", 6), _af("c", "n"),
+        _ai("t", 2))
+    return ls
+
+
+ADJ_LAYOUTS = _layouts()
+ADJ_BY_ID = {l.id: l for l in ADJ_LAYOUTS}
+ADJ_FAMILIES = ("same_size_pair", "same_size_triple", "different_sizes", "next_to_ints", "fixed_between_delimited",
+                "two_delimited_same_marker", "two_delimited_different_markers", "fixed_then_field_sized")
+
+
+class ACls:
+    __slots__ = ("name", "layout", "W", "opt", "src", "cls", "spec")
+
+    def __init__(self, name, layout, W, opt):
+        self.name, self.layout, self.W, self.opt = name, layout, W, opt
+        opts = dict(OPTSETS[opt])
+        if W is not None:
+            opts["search_buffer_length"] = W
+        self.src = "\n".join(["class %s(Packet):" % name, "    __bisturi__ = %r" % (opts,)] +
+                             ["    %s = %s" % (f.name, f.src) for f in layout.fields]) + "\n"
+        self.cls = None
+        self.spec = {"adj": True, "layout": layout.id, "W": W, "opt": opt}
+
+
+def adj_specs():
+    groups, n = [], 0
+    for layout in ADJ_LAYOUTS:
+        for W in layout.windows:
+            members = []
+            for opt in OPTSETS:
+                members.append(ACls("J%d" % n, layout, W, opt))
+                n += 1
+            groups.append(((layout.id, W), members))
+    return groups
+
+
+def define_adj(groups, scratch):
+    from .. import render
+    modules = []
+    for _, members in groups:
+        module, _path = render.load_source(WHEADER + "\n".join(c.src for c in members), scratch)
+        modules.append(module)
+        for c in members:
+            c.cls = getattr(module, c.name)
+    return modules
+
+
+def adj_model(layout, W, raw):
+    """Reference parse, field by field.
+    ('ok', want {name: value}, spans [(name, start, end)], end, pieces [bytes | None], flags)
+    | ('err', reason, field name, start of that field) | ('unjudged', reason)"""
+    cur, L = 0, len(raw)
+    want, spans, pieces, flags = {}, [], [], []
+    for f in layout.fields:
+        if f.kind == "int":
+            if cur + f.n > L:
+                return ("unjudged", "int_short")
+            chunk = raw[cur:cur + f.n]
+            want[f.name] = int.from_bytes(chunk, "little" if f.little else "big", signed=f.signed)
+            spans.append((f.name, cur, cur + f.n))
+            pieces.append(chunk)
+            cur += f.n
+            continue
+        r = take(f.mode, f.incl, W, raw, cur, want.get(f.ref) if f.ref else None)
+        if r[0] == "err":
+            return ("err", r[1], f.name, cur)
+        if r[0] == "unjudged":
+            return ("unjudged", r[1])
+        _, value, nxt, delim, fl = r
+        want[f.name] = value
+        spans.append((f.name, cur, nxt))
+        pieces.append(None if delim is None else value + delim)
+        flags.extend(fl)
+        cur = nxt
+    return ("ok", want, spans, cur, pieces, flags)
+
+
+def gen_adj(rng, layout, W):
+    """a complete input for the layout (the model decides what it is), sometimes with bytes after it"""
+    out = b""
+    vals = {}
+    lits = [f.mode for f in layout.data if f.mode.kind in ("lit", "rx")]
+    for f in layout.fields:
+        if f.kind == "int":
+            if f.name in layout.refs:
+                v = rng.choice([0, 1, 2, 3, 5, 6])
+                vals[f.name] = v
+                out += v.to_bytes(f.n, "little" if f.little else "big")
+            else:
+                out += _rb(rng, f.n, layout.alphabet) if (layout.alphabet and rng.random() < 0.3) else _rb(rng, f.n)
+        elif f.ref is not None:
+            out += _rb(rng, vals[f.ref])
+        elif f.mode.kind == "sized":
+            # a fixed field may hold the marker bytes of its delimited neighbours
+            out += _rb(rng, f.n, layout.alphabet) if (layout.alphabet and rng.random() < 0.5) else _rb(rng, f.n)
+        else:
+            seg = wseg(rng, f.mode, W)
+            others = [m for m in lits if m is not f.mode]
+            if others and rng.random() < 0.35:
+                o = rng.choice(others)
+                seg = rng.choice([d for d in o.delims if d] or [o.neutral]) + seg      # another field's marker inside
+            out += seg
+    if rng.random() < 0.3:
+        out += _rb(rng, rng.randint(1, 3), layout.alphabet or None)
+    return out
+
+
+def _akey(ac, raw):
+    return hashlib.blake2b(("a|%s|%s|%s|" % (ac.layout.id, ac.W, ac.opt)).encode() + raw, digest_size=8).hexdigest()
+
+
+def _awitness(ac, raw, exp, got, origin, op="unpack"):
+    return {"op": op, "declaration": WHEADER + ac.src, "class": ac.name, "spec": ac.spec, "raw": raw,
+            "origin": origin, "expected": exp, "got": got}
+
+
+def check_adj(run, ac, raw, origin, PacketError):
+    """Parse raw with the real class and judge every field against adj_model. Returns the model result when an
+    'ok' expectation was met, else None."""
+    layout = ac.layout
+    exp = adj_model(layout, ac.W, raw)
+    run.case(key=_akey(ac, raw), nontrivial=len(raw) >= 1)
+    run.count("adj_inputs")
+    pkt, exc = None, None
+    try:
+        pkt = ac.cls.unpack(raw)
+    except Exception as e:           # noqa
+        exc = e
+    if exp[0] == "unjudged":
+        run.count("adj_unjudged_" + exp[1])
+        return None
+    names = [f.name for f in layout.fields]
+    if exp[0] == "err":
+        _, reason, fname, at = exp
+        fsrc = next(f.src for f in layout.fields if f.name == fname)
+        if exc is None:
+            run.violation("%s of byte-string field %s = %s (cursor %d) accepted in a layout of neighbouring byte-string "
+                          "fields: unpack() returned a packet where the model demands an error" % (reason, fname, fsrc, at),
+                          _awitness(ac, raw, {"error": reason, "field": fname, "cursor": at},
+                                    {n: getattr(pkt, n, "<unset>") for n in names}, origin))
+            return None
+        if not isinstance(exc, PacketError):
+            run.violation("%s of byte-string field %s raised %s instead of PacketError" % (reason, fname, type(exc).__name__),
+                          _awitness(ac, raw, {"error": reason, "field": fname, "cursor": at},
+                                    {"exception": repr(exc)[:300]}, origin))
+            return None
+        run.count("adj_errors_agreed")
+        run.count("adj_err_%s_raised" % {"delimiter_straddles_window": "delimiter_outside_window"}.get(reason, reason))
+        run.cover("adj_err_in", "%s/%s" % (layout.family, reason))
+        if origin == "cut":
+            run.count("adj_truncations_rejected")
+            run.count("adj_truncations_rejected_" + ac.opt)
+        return None
+
+    _, want, spans, end, pieces, flags = exp
+    if exc is not None:
+        run.violation("unpack() raised %s on an input the model parses field by field (layout of neighbouring byte-string "
+                      "fields: %s)" % (type(exc).__name__, ", ".join(f.src for f in layout.fields)),
+                      _awitness(ac, raw, dict(want, end=end, spans=[list(s) for s in spans]),
+                                {"exception": str(exc)[:400]}, origin))
+        return None
+    got = {n: getattr(pkt, n, "<unset>") for n in names}
+    try:
+        p2 = ac.cls(_initialize_fields=False)
+        got_end = p2.unpack_impl(raw, 0, root=p2)
+        got2 = {n: getattr(p2, n, "<unset>") for n in names}
+    except Exception as e:           # noqa
+        got_end, got2 = "raised %s" % type(e).__name__, None
+    bad = None
+    for f, (_, s, e) in zip(layout.fields, spans):
+        g, w = got[f.name], want[f.name]
+        if type(g) is not type(w) or g != w:
+            if f.kind == "data":
+                bad = "byte-string field %s = %s differs from the model (%s from cursor %d, cursor left at %d)" % (
+                    f.name, f.src, "exact-length slice" if f.mode.kind == "sized" else
+                    "up to the first delimiter in the window, delimiter %s" % ("included" if f.incl else "excluded"), s, e)
+            else:
+                bad = "field %s = %s differs: the cursor was not left just past the byte-string field before it" % (
+                    f.name, f.src)
+            break
+    if bad is None and got_end != end:
+        bad = "end offset differs: the cursor was not left just past the last field"
+    if bad is None and got2 != want:
+        bad = "second parse (unpack_impl) produced different values"
+    if bad:
+        run.violation(bad, _awitness(ac, raw, dict(want, end=end, spans=[list(s) for s in spans]),
+                                     dict(got, end=got_end), origin))
+        return None
+    run.count("adj_unpack_ok_compared")
+    run.count("adj_end_offset_compared")
+    run.count("adj_byte_string_fields_compared", len(layout.data))
+    run.count("adj_ok_" + layout.family)
+    run.count("adj_ok_opt_" + ac.opt)
+    run.cover("adj_layouts", layout.id)
+    run.cover("adj_layout_x_option_set", "%s/%s" % (layout.id, ac.opt))
+    if layout.same_size_run >= 2:
+        run.count("adj_ok_same_size_run_of_%s" % ("2" if layout.same_size_run == 2 else "3_or_more"))
+    if ac.W and "in_window_accept" in flags:
+        run.count("adj_in_window_accepts")
+    if "delimiter_at_cursor" in flags:
+        run.count("adj_delimiter_at_cursor")
+    markers = [(f.name, f.mode.marker) for f in layout.data if f.mode.kind == "lit"]
+    if any(mk in want[f.name] for f in layout.data for n_, mk in markers
+           if n_ != f.name and not (f.mode.kind == "lit" and f.mode.marker == mk)):
+        run.count("adj_value_holds_another_fields_marker")
+
+    # pack() = the fields in order, every value followed by its excluded literal delimiter
+    if any(p is None for p in pieces):
+        run.count("adj_pack_regex_excluded_delimiter_not_judged")
+        return exp
+    check_adj_pack(run, ac, pkt, b"".join(pieces), want, "pack() of the packet parsed from raw", raw)
+    return exp
+
+
+def check_adj_pack(run, ac, pkt, wpack, values, how, raw=None):
+    try:
+        out = pkt.pack()
+    except Exception as e:           # noqa
+        w = _awitness(ac, raw, wpack, {"exception": str(e)[:400]}, how, "pack")
+        w["values"] = values
+        run.violation("pack() of a layout of neighbouring byte-string fields raised %s" % type(e).__name__, w)
+        return None
+    if out != wpack:
+        w = _awitness(ac, raw, wpack, out, how, "pack")
+        w["values"] = values
+        run.violation("pack() is not the concatenation of the fields in order (each byte-string value followed by its "
+                      "excluded literal delimiter)", w)
+        return None
+    run.count("adj_pack_compared")
+    run.count("adj_pack_compared_opt_" + ac.opt)
+    return out
+
+
+def adj_cuts(run, ac, raw, exp, PacketError):
+    """the same input cut at every point before the end of the parse"""
+    if exp is None or exp[0] != "ok":
+        return
+    end = exp[3]
+    if end > 40:
+        return
+    for c in range(end):
+        check_adj(run, ac, raw[:c], "cut", PacketError)
+    run.count("adj_inputs_cut_at_every_point")
+    run.count("adj_cut_points", end)
+
+
+def adj_fresh(run, rng, ac, PacketError):
+    layout = ac.layout
+    if not layout.packable:
+        return
+    kw, want = {}, b""
+    lens = {}
+    for f in layout.fields:                      # sizes of the field-sized values first
+        if f.ref is not None:
+            lens[f.ref] = rng.choice([0, 1, 2, 4])
+    for f in layout.fields:
+        if f.kind == "int":
+            if f.name in lens:
+                v = lens[f.name]
+            elif f.signed:
+                v = rng.randrange(-(1 << (8 * f.n - 1)), 1 << (8 * f.n - 1))
+            else:
+                v = rng.randrange(1 << (8 * f.n))
+            kw[f.name] = v
+            want += v.to_bytes(f.n, "little" if f.little else "big", signed=f.signed)
+        elif f.ref is not None:
+            kw[f.name] = _rb(rng, lens[f.ref])
+            want += kw[f.name]
+        elif f.mode.kind == "sized":
+            kw[f.name] = _rb(rng, f.n, layout.alphabet) if (layout.alphabet and rng.random() < 0.4) else _rb(rng, f.n)
+            want += kw[f.name]
+        else:
+            v = f.mode.neutral * rng.randint(0, 2)
+            if f.incl:
+                v += rng.choice(f.mode.delims)
+            kw[f.name] = v
+            want += v + (f.mode.marker if (f.mode.kind == "lit" and not f.incl) else b"")
+    try:
+        pkt = ac.cls(**kw)
+    except Exception:                # noqa - construction is not C06's business
+        run.count("adj_fresh_construction_failed")
+        return
+    out = check_adj_pack(run, ac, pkt, want, kw, "pack() of a freshly built packet")
+    if out is None:
+        return
+    run.count("adj_fresh_pack_compared")
+    exp = check_adj(run, ac, out, "repack", PacketError)
+    if exp is not None and exp[1] == kw:
+        run.count("adj_repack_roundtrip_values_preserved")
+    else:
+        run.count("adj_repack_not_identical_per_model")
+
+
+def run_adjacent(run, PacketError, n_shared, n_private, n_fresh):
+    from .. import common
+    shard, _ = run.shard
+    rng = rng_for(run.seed, "c06-adjacent", shard)
+    scratch = common.scratch_dir("bvf_c06a_")
+    groups = adj_specs()
+    modules = []
+    try:
+        modules = define_adj(groups, scratch)
+        run.count("adj_classes_defined", sum(len(m) for _, m in groups))
+        run.count("adj_classes_with_same_size_run", sum(1 for _, m in groups for c in m if c.layout.same_size_run >= 2))
+        sampled = 0
+        for (lid, W), members in groups:
+            layout = ADJ_BY_ID[lid]
+            shared = [gen_adj(rng, layout, W) for _ in range(n_shared)]
+            for ac in members:
+                for raw in shared:
+                    adj_cuts(run, ac, raw, check_adj(run, ac, raw, "adversarial", PacketError), PacketError)
+                for _ in range(n_private):
+                    raw = gen_adj(rng, layout, W)
+                    adj_cuts(run, ac, raw, check_adj(run, ac, raw, "random", PacketError), PacketError)
+                for _ in range(n_fresh):
+                    adj_fresh(run, rng, ac, PacketError)
+                if run.counters["violations"] > 40:
+                    return
+            if sampled < 2 and layout.same_size_run >= 2 and shared:
+                exp = adj_model(layout, W, shared[0])
+                run.sample({"declaration": members[1].src, "raw": shared[0],
+                            "model": [exp[0], exp[1]] + ([exp[3]] if exp[0] == "ok" else [])}, cap=12)
+                sampled += 1
+    finally:
+        forget(modules)
+        common.drop_scratch(scratch)
+
+
 # ---- driver -------------------------------------------------------------------------------------
 def run(run):
     from .. import common
@@ -2002,6 +2739,20 @@ def run(run):
         run_ctx(run, PacketError, n_shared=14, n_private=6, n_fresh=2)
     else:
         run_ctx(run, PacketError, n_shared=24, n_private=12, n_fresh=3)
+    if run.counters["violations"] > 40:
+        return
+    # regex delimiters compiled with flags (re.I on literals, re.S, re.M, re.X, re.A, inline flags)
+    if run.tier == "quick":
+        run_flags(run, PacketError, n_shared=12, n_private=6, n_fresh=2)
+    else:
+        run_flags(run, PacketError, n_shared=24, n_private=12, n_fresh=4)
+    if run.counters["violations"] > 40:
+        return
+    # several byte-string fields next to each other, every input also cut at every point
+    if run.tier == "quick":
+        run_adjacent(run, PacketError, n_shared=6, n_private=2, n_fresh=3)
+    else:
+        run_adjacent(run, PacketError, n_shared=14, n_private=6, n_fresh=6)
 
 
 def _replay_wrapped(run, w, PacketError):
@@ -2055,6 +2806,25 @@ def _replay_ctx(run, w, PacketError):
         common.drop_scratch(scratch)
 
 
+def _replay_adj(run, w, PacketError):
+    from .. import common
+    spec = w["spec"]
+    ac = ACls("JReplay", ADJ_BY_ID[spec["layout"]], spec["W"], spec["opt"])
+    scratch = common.scratch_dir("bvf_c06r_")
+    mods = []
+    try:
+        mods = define_adj([(None, [ac])], scratch)
+        raw = common.from_json(w.get("raw"))
+        if w.get("op") == "pack" and raw is None:
+            values = common.from_json(w["values"])
+            check_adj_pack(run, ac, ac.cls(**values), common.from_json(w["expected"]), values, "replay")
+        else:
+            check_adj(run, ac, raw, "replay", PacketError)
+    finally:
+        forget(mods)
+        common.drop_scratch(scratch)
+
+
 def replay(run, rec):
     """Re-define the recorded class and re-execute the recorded case."""
     from .. import common
@@ -2068,6 +2838,11 @@ def replay(run, rec):
         return
     if "shape" in spec:
         _replay_wrapped(run, w, PacketError)
+        if not run.violations:
+            print("replay: the recorded case did not produce a violation on this tree")
+        return
+    if spec.get("adj"):
+        _replay_adj(run, w, PacketError)
         if not run.violations:
             print("replay: the recorded case did not produce a violation on this tree")
         return
@@ -2087,6 +2862,8 @@ def replay(run, rec):
             if not c.tail:
                 kw["s2"] = v["s2"]
             check_pack_bytes(run, c, c.cls(**kw), v["s1"], unb(v["d"]), v["s2"], "replay", PacketError)
+        elif spec["mode"].startswith("fl_"):
+            flg_input(run, c, unb(w["raw"]), "replay", PacketError)
         else:
             one_input(run, c, unb(w["raw"]), "replay", PacketError)
     finally:
